@@ -18,7 +18,8 @@ EXPLANATION = (
     "leap day added after February), and equals year + (days + h/24 + m/1440 + (s+us*1e-6)/86400)/days_in_year; the "
     "inverse splits year/fraction with the same leap rule. NOT decided: monotonicity / inverse accuracy of "
     "decimal_year as float facts; that fromtimestamp(ms/1000) lands on the intended microsecond for every ms in "
-    "1900..2200; the os.name == 'nt' branch (unreachable on this platform).")
+    "1900..2200; the os.name == 'nt' branch (unreachable on this platform). "
+    "Also decided (round 5): D2.local no `.astimezone()` on a value not tested for a tzinfo in time_utils / forecasts / catalogs (naive = UTC, not local time); D1.live get_datetimes converts the stored epoch times at every call; D3/D4 are read path-sensitively (format per combination of '.'/offset, year length per leap test).")
 CLAUSES = {'D1': 'no lossy unit step', 'D2': 'UTC discipline', 'D3': 'format sniffing and composition', 'D4': 'decimal year'}
 TRUSTED = ['CPython ast', 'datetime: timedelta // timedelta is exact integer arithmetic', 'calendar.isleap / monthrange']
 T = 'csep.utils.time_utils.'
